@@ -1285,6 +1285,10 @@ class Evaluator:
                 kind = 'scalar' if isinstance(needle, Num) and needle.length is None else 'ndarray'
             if dotted in ('numpy.argmax', 'numpy.argmin') and 'axis' not in kw and len(pos) < 2:
                 kind = 'scalar'
+            if dotted in ('numpy.linspace', 'numpy.geomspace', 'numpy.logspace'):
+                ends = [kw.get('start', pos[0] if pos else None), kw.get('stop', pos[1] if len(pos) > 1 else None)]
+                if any(isinstance(x_, Num) and x_.length is not None for x_ in ends):
+                    kind = 'ndarray2d'
             uid = fresh_serial() if dotted in IMPURE_LIBS or dotted.startswith(IMPURE_PREFIXES) else None
             npos, nkw = normalise_lib_args(dotted, pos, kw) if star_kw is None else (pos, kw)
             res = Term('lib:' + dotted, npos, list(nkw.items()) + ([('**', star_kw)] if star_kw is not None else []),
